@@ -35,7 +35,7 @@ CONSTANTS MaxEntries,   \* bound on entries built by the constructor actions
           Pts,          \* numbers of extra instructions (entry points) an entry may get
           Layouts,      \* path layouts (indices into LayoutTable) the constructor may use
           AnchorKinds,  \* AddressAnchor kinds the constructor may use
-          Deviation     \* "none" | "single-remote-operand" (skoolkit's behaviour, see RefLink)
+          Deviation     \* "none" | "single-remote-operand" (a former behaviour of skoolkit, see RefLink)
 
 VARIABLES site, files, written, links, todo
 vars == <<site, files, written, links, todo>>
@@ -89,9 +89,9 @@ FmtAddr(fmt, base, a) ==
    site = [single: 0..1, base: {10,16}, afmt, ffmt: [pre, kind, suf]   (AddressAnchor, CodeFiles)
            index: Path, res: Seq(Path)                               (GameIndex; CSS/JS/[Resources] copies)
            codes: Seq([dir: Path, map: Path, asm1: Path])           (1 = main: CodePath, MemoryMap, AsmSinglePage)
-           entries: Seq([a, t, c, ins: Seq(addr), bc: Seq(addr), refs: Seq([c, a])])
+           entries: Seq([a, t, c, ins: Seq(addr), bc: Seq(addr), refs: Seq([c, a, op])])
            maps: Seq([path, types: Seq(STRING), inc: Seq(addr), wr: 0..1])   (main memory maps)
-           pages: Seq([path, ids: Seq(STRING), refs: Seq([c, a])])
+           pages: Seq([path, ids: Seq(STRING), refs: Seq([c, a, op])])
            w: Seq(STRING)]                                           (subset of d i m o P) *)
 AllFlags == <<"d", "i", "m", "o", "P">>
 Anchor(s, a) == FmtAddr(s.afmt, s.base, a)
@@ -222,19 +222,21 @@ AddEntry(t, c, pts) ==
      IN site' = [site EXCEPT !.entries = Append(@, e)]
   /\ UNCHANGED <<files, written, links, todo>>
 
-\* constructor: entry i refers (operand or #R) to instruction k of entry j
-AddRef(i, j, k) ==
+\* constructor: entry i refers to instruction k of entry j, with a #R macro in its text (op = 0) or with the
+\* operand of its last instruction (op = 1, at most one per entry)
+AddRef(i, j, k, op) ==
   /\ Building /\ NumRefs(site) < MaxRefs
   /\ i \in DOMAIN site.entries /\ j \in DOMAIN site.entries /\ k \in DOMAIN site.entries[j].ins
   /\ site.entries[i].t # "i" /\ site.entries[j].t # "i"
-  /\ site' = [site EXCEPT !.entries[i].refs = Append(@, [c |-> site.entries[j].c, a |-> site.entries[j].ins[k]])]
+  /\ op = 1 => \A x \in Range(site.entries[i].refs) : x.op = 0
+  /\ site' = [site EXCEPT !.entries[i].refs = Append(@, [c |-> site.entries[j].c, a |-> site.entries[j].ins[k], op |-> op])]
   /\ UNCHANGED <<files, written, links, todo>>
 
 \* constructor: the [Page:*] page refers to instruction k of entry j
 AddPageRef(j, k) ==
   /\ Building /\ NumRefs(site) < MaxRefs
   /\ j \in DOMAIN site.entries /\ k \in DOMAIN site.entries[j].ins /\ site.entries[j].t # "i"
-  /\ site' = [site EXCEPT !.pages[1].refs = Append(@, [c |-> site.entries[j].c, a |-> site.entries[j].ins[k]])]
+  /\ site' = [site EXCEPT !.pages[1].refs = Append(@, [c |-> site.entries[j].c, a |-> site.entries[j].ins[k], op |-> 0])]
   /\ UNCHANGED <<files, written, links, todo>>
 
 \* ---- what each page contains according to the documentation ----
@@ -243,20 +245,24 @@ RECURSIVE SetToSeq(_)
 SetToSeq(S) == IF S = {} THEN <<>> ELSE LET x == CHOOSE x \in S : TRUE IN <<x>> \o SetToSeq(S \ {x})
 Container(s, r) == {e \in Real(s) : e.c = r.c /\ r.a \in Range(e.ins)}
 
-\* a reference from page p (belonging to entry `from`, or to no entry: from = <<>>) to address r.a of code r.c:
-\* #R and operand links go to the page of the containing entry, with the instruction's anchor unless it is the
-\* first instruction of another entry; on a single page always with the anchor.
-\* Deviation "single-remote-operand": skoolhtml._get_asm_entry links an operand that refers to a remote entry
-\* to '#anchor' on the *current* single page.
+\* a reference r = [c, a, op] from page p (belonging to entry `from`, or to no entry: from = <<>>) to address r.a
+\* of disassembly r.c leads to the page of the containing entry.  #R (skool-macros.rst): "to the disassembly page
+\* for a routine or data block, or to a line at a given address within that page", i.e. with the instruction's
+\* anchor unless it is the first instruction.  An instruction operand (op = 1) is linked the same way, except that
+\* a reference to the first instruction of the entry it is in gets the anchor too (it stays on the page).
+\* On a single page every reference carries the anchor.
+\* Deviation "single-remote-operand": what skoolhtml._get_asm_entry did before the fix c7a4346 (found by this
+\* check): an operand that refers to a remote entry was linked to '#anchor' on the *current* single page.
 RefLink(s, p, from, r) ==
   {IF s.single = 1
-   THEN (IF Deviation = "single-remote-operand" /\ from # <<>> /\ from.c # te.c
+   THEN (IF Deviation = "single-remote-operand" /\ r.op = 1 /\ from.c # te.c
          THEN [href |-> <<>>, frag |-> Anchor(s, r.a)]
          ELSE Href(s, p, EntryFile(s, te), Anchor(s, r.a)))
-   ELSE Href(s, p, EntryFile(s, te), IF r.a = te.a /\ from # te THEN "" ELSE Anchor(s, r.a))
+   ELSE Href(s, p, EntryFile(s, te), IF r.a # te.a \/ (r.op = 1 /\ from = te) THEN Anchor(s, r.a) ELSE "")
    : te \in Container(s, r)}
 
-Std(s, p) == {Href(s, p, s.index, "")} \cup {Href(s, p, s.res[i], "") : i \in DOMAIN s.res}
+\* every page links to the style sheets / scripts and, through its logo, to the index (the index itself does not)
+Std(s, p) == (IF p = s.index THEN {} ELSE {Href(s, p, s.index, "")}) \cup {Href(s, p, s.res[i], "") : i \in DOMAIN s.res}
 Before(s, e) == {x \in OfCode(s, e.c) : x.a < e.a}
 After(s, e) == {x \in OfCode(s, e.c) : x.a > e.a}
 Prev(s, e) == {x \in Before(s, e) : \A y \in Before(s, e) : y.a <= x.a}
@@ -266,10 +272,13 @@ EntryIds(s, e) == \* bag of anchors of entry e, in page order
   LET RECURSIVE Ids(_)
       Ids(q) == IF q = <<>> THEN <<>> ELSE [i \in 1..Mult(s, e, Head(q)) |-> Anchor(s, Head(q))] \o Ids(Tail(q))
   IN Ids(e.ins)
+\* an entry page has Prev / Up / Next navigation (Up = the entry's row on the memory map of its disassembly);
+\* the single-page template has no navigation
 EntryLinks(s, p, e) ==
-  {Href(s, p, s.codes[e.c].map, Anchor(s, e.a))}
-  \cup UNION {RefLink(s, p, e, e.refs[i]) : i \in DOMAIN e.refs}
-  \cup (IF s.single = 1 THEN {} ELSE {Href(s, p, EntryFile(s, x), "") : x \in Prev(s, e) \cup Next1(s, e)})
+  UNION {RefLink(s, p, e, e.refs[i]) : i \in DOMAIN e.refs}
+  \cup (IF s.single = 1 THEN {}
+        ELSE {Href(s, p, s.codes[e.c].map, Anchor(s, e.a))}
+             \cup {Href(s, p, EntryFile(s, x), "") : x \in Prev(s, e) \cup Next1(s, e)})
 
 RECURSIVE Flat(_)
 Flat(q) == IF q = <<>> THEN <<>> ELSE Head(q) \o Flat(Tail(q))
@@ -328,12 +337,20 @@ WriteNext ==
   /\ UNCHANGED site
 
 Next == \/ \E t \in Types, c \in 1..2, pts \in Pts : AddEntry(t, c, pts)
-        \/ \E i, j \in 1..MaxEntries, k \in 1..3 : AddRef(i, j, k)
+        \/ \E i, j \in 1..MaxEntries, k \in 1..3, op \in 0..1 : AddRef(i, j, k, op)
         \/ \E j \in 1..MaxEntries, k \in 1..3 : AddPageRef(j, k)
         \/ Finish
         \/ WriteNext
 
 Spec == Init /\ [][Next]_vars
+
+\* documented files whose recorded content (ids in order, resolved link set) differs from DocFile: model drift,
+\* reported by trace validation for sites that were rendered with nothing but the abstract content
+ModelDiff(fs, lk, s) ==
+  {p \in (ExpectedFor(s, Range(s.w)) \cap DOMAIN fs) :
+     \/ fs[p] # DocFile(s, p).ids
+     \/ {[to |-> l.to, frag |-> l.frag] : l \in {x \in lk : x.src = p}}
+        # {[to |-> Resolve(p, l.href), frag |-> l.frag] : l \in DocFile(s, p).lks}}
 
 Done == ~Building /\ todo = <<>>
 \* the documented file set and link rule imply the property
